@@ -9,7 +9,7 @@ WT="/tmp/seedrun_$NAME"
 git -C /repo worktree remove --force "$WT" >/dev/null 2>&1
 rm -rf "$WT"
 git -C /repo worktree add -q --detach "$WT" HEAD || exit 2
-if ! git -C "$WT" apply "$SRC/patch.diff"; then echo "patch does not apply"; git -C /repo worktree remove --force "$WT"; exit 2; fi
+if ! git -C "$WT" apply "$SRC/patch.diff" 2>/dev/null && ! git -C "$WT" apply -3 "$SRC/patch.diff"; then echo "patch does not apply"; git -C /repo worktree remove --force "$WT"; exit 2; fi
 echo "== demo on unchanged tree"; PYTHONPATH=/repo/src /venv/bin/python "$SRC/demo.py" >/tmp/seed_demo_clean.txt 2>&1; RC_CLEAN=$?; tail -2 /tmp/seed_demo_clean.txt
 echo "== demo on changed tree"; PYTHONPATH="$WT/src" /venv/bin/python "$SRC/demo.py" >/tmp/seed_demo_mut.txt 2>&1; RC_MUT=$?; tail -2 /tmp/seed_demo_mut.txt
 echo "== test suite on changed tree"; (cd "$WT" && PYTHONPATH="$WT/src" /venv/bin/python -m pytest -q -p no:cacheprovider 2>&1 | tail -1) | tee /tmp/seed_suite.txt
@@ -23,7 +23,7 @@ for P in $PID $EXTRA; do
 done
 git -C /repo worktree remove --force "$WT"
 mkdir -p "/verif/seeded/$NAME"
-cp "$SRC/patch.diff" "$SRC/demo.py" "/verif/seeded/$NAME/"
+[ "$(readlink -f "$SRC")" = "/verif/seeded/$NAME" ] || cp "$SRC/patch.diff" "$SRC/demo.py" "/verif/seeded/$NAME/"
 /venv/bin/python - "$SRC" "$NAME" "$PID" "$RC_CLEAN" "$RC_MUT" "$RES" "$OUT" <<'PY'
 import json, sys, os, glob
 src, name, pid, rc_clean, rc_mut, res, out = sys.argv[1:8]
